@@ -1,5 +1,6 @@
 //@lemma C01 C07 C08 C04
 impl CodecLaws for u8 {
+    proof fn tbl_mono(&self, t: Tbl) { }
     proof fn roundtrip(&self, t: Tbl, suffix: Seq<u8>) {
         let s = self.enc(t) + suffix;
         assert(s[0] == self.enc(t)[0]);
@@ -10,6 +11,7 @@ impl CodecLaws for u8 {
 
 //@lemma C01 C07 C08 C04
 impl CodecLaws for i8 {
+    proof fn tbl_mono(&self, t: Tbl) { }
     proof fn roundtrip(&self, t: Tbl, suffix: Seq<u8>) {
         let s = self.enc(t) + suffix;
         assert(s[0] == self.enc(t)[0]);
@@ -20,6 +22,7 @@ impl CodecLaws for i8 {
 
 //@lemma C01 C07 C08 C04
 impl CodecLaws for u16 {
+    proof fn tbl_mono(&self, t: Tbl) { }
     proof fn roundtrip(&self, t: Tbl, suffix: Seq<u8>) {
         let v = self.gv() as nat;
         lemma_pow256();
@@ -34,6 +37,7 @@ impl CodecLaws for u16 {
 
 //@lemma C01 C07 C08 C04
 impl CodecLaws for i16 {
+    proof fn tbl_mono(&self, t: Tbl) { }
     proof fn roundtrip(&self, t: Tbl, suffix: Seq<u8>) {
         let v = self.gv() as nat;
         lemma_pow256();
@@ -48,6 +52,7 @@ impl CodecLaws for i16 {
 
 //@lemma C01 C07 C08 C04
 impl CodecLaws for u32 {
+    proof fn tbl_mono(&self, t: Tbl) { }
     proof fn roundtrip(&self, t: Tbl, suffix: Seq<u8>) {
         let v = self.gv() as nat;
         lemma_pow256();
@@ -62,6 +67,7 @@ impl CodecLaws for u32 {
 
 //@lemma C01 C07 C08 C04
 impl CodecLaws for i32 {
+    proof fn tbl_mono(&self, t: Tbl) { }
     proof fn roundtrip(&self, t: Tbl, suffix: Seq<u8>) {
         let v = self.gv() as nat;
         lemma_pow256();
@@ -76,6 +82,7 @@ impl CodecLaws for i32 {
 
 //@lemma C01 C07 C08 C04
 impl CodecLaws for u64 {
+    proof fn tbl_mono(&self, t: Tbl) { }
     proof fn roundtrip(&self, t: Tbl, suffix: Seq<u8>) {
         let v = self.gv() as nat;
         lemma_pow256();
@@ -90,6 +97,7 @@ impl CodecLaws for u64 {
 
 //@lemma C01 C07 C08 C04
 impl CodecLaws for i64 {
+    proof fn tbl_mono(&self, t: Tbl) { }
     proof fn roundtrip(&self, t: Tbl, suffix: Seq<u8>) {
         let v = self.gv() as nat;
         lemma_pow256();
@@ -104,6 +112,7 @@ impl CodecLaws for i64 {
 
 //@lemma C01 C07 C08 C04
 impl CodecLaws for u128 {
+    proof fn tbl_mono(&self, t: Tbl) { }
     proof fn roundtrip(&self, t: Tbl, suffix: Seq<u8>) {
         let v = self.gv() as nat;
         lemma_pow256();
@@ -118,6 +127,7 @@ impl CodecLaws for u128 {
 
 //@lemma C01 C07 C08 C04
 impl CodecLaws for i128 {
+    proof fn tbl_mono(&self, t: Tbl) { }
     proof fn roundtrip(&self, t: Tbl, suffix: Seq<u8>) {
         let v = self.gv() as nat;
         lemma_pow256();
@@ -132,6 +142,7 @@ impl CodecLaws for i128 {
 
 //@lemma C01 C07 C08 C04
 impl CodecLaws for f32 {
+    proof fn tbl_mono(&self, t: Tbl) { }
     proof fn roundtrip(&self, t: Tbl, suffix: Seq<u8>) {
         let v = self.gv() as nat;
         lemma_pow256();
@@ -146,6 +157,7 @@ impl CodecLaws for f32 {
 
 //@lemma C01 C07 C08 C04
 impl CodecLaws for f64 {
+    proof fn tbl_mono(&self, t: Tbl) { }
     proof fn roundtrip(&self, t: Tbl, suffix: Seq<u8>) {
         let v = self.gv() as nat;
         lemma_pow256();
